@@ -46,6 +46,20 @@ func c01ContentMutations(w hx.World) (any, []hx.TreeMutation) {
 func c01Gen(t *rapid.T) c01Case {
 	o := hx.DefaultWorldOpts()
 	w := hx.GenWorld(t, o)
+	switch rapid.IntRange(0, 9).Draw(t, "degenerate") {
+	case 0:
+		// a layout that asks for nothing (no steps, no inspections): its signatures count all the same
+		if w.Layout.Meta.Layout != nil {
+			lay := *w.Layout.Meta.Layout
+			lay.Steps, lay.Inspect = []hx.MStep{}, []hx.MInspection{}
+			w.Layout.Meta = hx.MMeta{Layout: &lay}
+			w.Links = nil
+		}
+	case 1:
+		// the directory to verify is empty (run-directory entry point): whatever that entry point thinks
+		// of an empty directory, it is no reason to call a badly signed layout verified
+		w.Product, w.Entry = nil, "rundir"
+	}
 	c := c01Case{World: w, StepName: rapid.SampledFrom([]string{"", "", "release", "a b"}).Draw(t, "stepname")}
 	c.Alt.Kind = rapid.SampledFrom(c01AltKinds).Draw(t, "alt")
 	c.Alt.A = rapid.IntRange(0, 1<<16).Draw(t, "a")
@@ -533,6 +547,12 @@ func c01Eval(c c01Case, r *hx.Rec, enum *hx.TreeMutation) error {
 	r.Label("entry=%s", w.Entry)
 	r.Label("alt=%s", alt.Kind)
 	r.Label("truth_ok=%v", ok)
+	if lay := w.Layout.Meta.Layout; lay != nil && len(lay.Steps) == 0 && len(lay.Inspect) == 0 {
+		r.Label("layout-without-steps-and-inspections")
+	}
+	if len(w.Product) == 0 && w.Entry == "rundir" {
+		r.Label("empty-run-directory")
+	}
 	if alt.Mut != nil {
 		r.Label("field=%s:%s", alt.Mut.Shape, alt.Mut.Kind)
 	}
@@ -549,6 +569,10 @@ func c01Eval(c c01Case, r *hx.Rec, enum *hx.TreeMutation) error {
 		if len(out.Dropped) > 0 {
 			return fmt.Errorf("alteration %s: layout rejected (%s) but inspection links were written: %v", c01Describe(alt), out, out.Dropped)
 		}
+	case unaltered && len(w.Product) == 0 && w.Entry == "rundir":
+		// (an empty run directory is refused by that entry point for reasons of its own)
+		r.Label("honest-with-empty-run-directory")
+		r.Unasserted()
 	case unaltered:
 		if alt.Kind == "neutral" {
 			r.Nontrivial()
